@@ -155,7 +155,7 @@ def step_arithmetic(ctx, rep, rule: str) -> None:
 def adagrad_arithmetic(ctx, rep, rule: str) -> None:
     repo = ctx.repo
     ci = repo.cls(f"{PL_MOD}:AdagradPreconditionerList")
-    up, pre = ci.methods["update_preconditioners"], ci.methods["precondition"]
+    up, pre = repo.meth(ci, "update_preconditioners"), repo.meth(ci, "precondition")
     n = 0
     bad: list = []
     for b2, ubc in itertools.product([1.0, GEN], [True, False]):
@@ -208,7 +208,7 @@ def adagrad_arithmetic(ctx, rep, rule: str) -> None:
 def factor_arithmetic(ctx, rep, rule: str) -> None:
     repo = ctx.repo
     base = repo.cls(f"{PL_MOD}:BaseShampooPreconditionerList")
-    fi = base.methods["_update_factor_matrices"]
+    fi = repo.meth(base, "_update_factor_matrices")
     n = 0
     bad: list = []
     for b2 in (1.0, GEN):
@@ -299,7 +299,7 @@ def _dims_all_but_k(d: ast.AST) -> bool:
 def inverse_root_wiring(ctx, rep, rule: str) -> None:
     repo = ctx.repo
     ci = repo.cls(f"{PL_MOD}:ShampooPreconditionerList")
-    fi = ci.methods["_amortized_computation"]
+    fi = repo.meth(ci, "_amortized_computation")
     n = 0
     bad: list = []
     for mult, ubc, b2 in itertools.product((None, GEN), (True, False), (1.0, GEN)):
@@ -346,7 +346,7 @@ def inverse_root_wiring(ctx, rep, rule: str) -> None:
 def soap_arithmetic(ctx, rep, rule: str) -> None:
     repo = ctx.repo
     ci = repo.cls(f"{PL_MOD}:EigenvalueCorrectedShampooPreconditionerList")
-    up, pre = ci.methods["_update_eigenvalue_corrections"], ci.methods["precondition"]
+    up, pre = repo.meth(ci, "_update_eigenvalue_corrections"), repo.meth(ci, "precondition")
     n = 0
     bad: list = []
 
